@@ -1,6 +1,7 @@
 """./check configuration for C19 (see verif_props.py)."""
 
-PROP = {'module': 'GolibsVerif.Theorems.C19',
+PROP = {'race': True,
+ 'module': 'GolibsVerif.Theorems.C19',
  'namespace': 'GolibsVerif.C19',
  'rule': 'C19.tree: scripts of WithAttrs derivations (depth <= 5, sibling fan-out), Handle and Enabled calls over records whose attributes '
          'were added in arbitrary AddAttrs chunks; non-trivial = at least one Handle and one of: two children of one parent / depth >= 2 / '
